@@ -260,6 +260,182 @@ let run_br (toks : string list) : string =
    with Exit -> ());
   String.concat " " (Stdlib.List.rev !outs)
 
+(* ---- file level, binary side ---- *)
+let parse_proto (s : string) : Record.dtype list =
+  (* name=type,name=type,... ; names are ignored by the binary model *)
+  Stdlib.List.map (fun nt ->
+      match String.index_opt nt '=' with
+      | Some i -> parse_type (String.sub nt (i+1) (String.length nt - i - 1))
+      | None -> parse_type nt)
+    (Stdlib.List.filter (fun x -> x <> "") (String.split_on_char ',' s))
+
+let parse_points (s : string) : Record.rvalue list list =
+  if s = "" then [] else
+    Stdlib.List.map (fun p ->
+        Stdlib.List.map parse_value (Stdlib.List.filter (fun x -> x <> "") (String.split_on_char ',' p)))
+      (String.split_on_char ';' s)
+
+let parse_item (t : string) : FileBin.item =
+  match String.split_on_char ':' t with
+  | ["B"; h] -> FileBin.IBlob (bytes_of_hex h)
+  | ["P"; proto; pts] -> FileBin.IPc (parse_proto proto, parse_points pts)
+  | ["P"; proto] -> FileBin.IPc (parse_proto proto, [])
+  | _ -> failwith ("bad item " ^ t)
+
+let show_points (pts : Record.rvalue list list) : string =
+  String.concat ";" (Stdlib.List.map (fun p -> String.concat "," (Stdlib.List.map show_value p)) pts)
+
+let fnv_string (s : string) : string =
+  let h = ref fnv_init in
+  String.iter (fun c -> h := fnv_byte !h (Char.code c)) s;
+  fnv_hex !h
+
+let raw_summary (s : PagedReader.pr) (fo : BinNums.coq_N) (recs : BinNums.coq_N) (proto : Record.dtype list) : string =
+  let (s1, r) = QueueReader.raw_new fo recs proto s in
+  match r with
+  | Prelude.Ok it ->
+    let buf = Buffer.create 256 in
+    let count = ref 0 in
+    let rec loop s it =
+      let (s', r) = QueueReader.raw_next it s in
+      match r with
+      | Prelude.Ok (it', QueueReader.Item p) ->
+        if !count > 0 then Buffer.add_char buf ';';
+        Buffer.add_string buf (String.concat "," (Stdlib.List.map show_value p));
+        incr count; loop s' it'
+      | Prelude.Ok (_, QueueReader.Done) -> "none"
+      | Prelude.Err k -> "e" ^ err_name k
+      | Prelude.Panic -> "P" in
+    let fin = loop s1 it in
+    let txt = Buffer.contents buf in
+    Printf.sprintf "n=%d end=%s h=%s%s" !count fin (fnv_string txt)
+      (if String.length txt <= 1500 then " pts=" ^ txt else "")
+  | Prelude.Err k -> "new:e" ^ err_name k
+  | Prelude.Panic -> "new:P"
+
+(* FW <fault> item... X:<xmlhex> [DUMP] : run the writer program; items one by one so that the
+   result of each call is visible, the writer lives on after a failed item as in the API;
+   then read everything back from the written file *)
+let run_fw (toks : string list) : string =
+  match toks with
+  | fault :: rest ->
+    let xml = ref None in
+    let dump = Stdlib.List.mem "DUMP" rest in
+    let items = Stdlib.List.filter_map (fun t ->
+        if t = "DUMP" then None else
+        if String.length t >= 2 && String.sub t 0 2 = "X:" then
+          (xml := Some (bytes_of_hex (String.sub t 2 (String.length t - 2))); None)
+        else Some (parse_item t)) rest in
+    let d0 = Device.dev_init [] (fault_of fault) in
+    let (d1, r) = PagedWriter.pw_new d0 in
+    (match r with
+     | Prelude.Ok s ->
+       let outs = ref [] in
+       let results = ref [] in
+       let st = ref s in
+       let res_s r f = match r with
+         | Prelude.Ok v -> f v | Prelude.Err k -> "e" ^ err_name k | Prelude.Panic -> "P" in
+       let (s1, r0) = FileBin.writer_init !st in
+       st := s1;
+       outs := [res_s r0 (fun () -> "o")];
+       let fin_ok = ref false in
+       if r0 = Prelude.Ok () then begin
+         Stdlib.List.iter (fun it ->
+             let (s2, r) = FileBin.item_write it !st in
+             st := s2;
+             (match r with Prelude.Ok o -> results := (it, o) :: !results | _ -> ());
+             outs := res_s r (fun o -> match o with
+                 | FileBin.OBlob (o, l) -> Printf.sprintf "b%s:%s" (decimal_of_n o) (decimal_of_n l)
+                 | FileBin.OPc (o, n) -> Printf.sprintf "p%s:%s" (decimal_of_n o) (decimal_of_n n)) :: !outs) items;
+         (match !xml with
+          | Some x ->
+            let (s3, r) = FileBin.writer_finalize x !st in
+            st := s3; outs := res_s r (fun () -> "o") :: !outs;
+            fin_ok := (r = Prelude.Ok ())
+          | None -> ())
+       end;
+       let (s4, _) = PagedWriter.pw_drop !st in
+       let d = s4.PagedWriter.pw_dev in
+       let rb =
+         match FileBin.reader_open (Device.dev_init d.Device.d_bytes None) with
+         | (_, Prelude.Ok ((rs, _), _)) ->
+           String.concat "" (Stdlib.List.map (fun (it, o) ->
+               match it, o with
+               | FileBin.IPc (proto, _), FileBin.OPc (fo, n) -> " # pc " ^ raw_summary rs fo n proto
+               | FileBin.IBlob _, FileBin.OBlob (bo, bl) ->
+                 let (_, r) = FileBin.blob_read bo bl rs in
+                 " # bl " ^ (match r with
+                     | Prelude.Ok data -> Printf.sprintf "ok n=%d h=%s" (Stdlib.List.length data) (fnv_hex (fnv_bytes fnv_init data))
+                     | Prelude.Err k -> "e" ^ err_name k
+                     | Prelude.Panic -> "P")
+               | _ -> " # ??") (Stdlib.List.rev !results))
+         | _ -> " # reopen-failed" in
+       String.concat " " (Stdlib.List.rev !outs) ^ " | " ^ dev_summary d ^ rb
+       ^ (if dump then " dev=" ^ hex_of_bytes d.Device.d_bytes else "")
+     | Prelude.Err k -> "new:e" ^ err_name k ^ " | " ^ dev_summary d1
+     | Prelude.Panic -> "new:P")
+  | _ -> failwith "bad FW case"
+
+(* RAWRD <fault> <devhex> <file_offset> <records> <proto> : raw iteration with the descriptor given *)
+let run_rawrd (toks : string list) : string =
+  match toks with
+  | [fault; devhex; fo; recs; proto] ->
+    let d0 = Device.dev_init (bytes_of_hex devhex) (fault_of fault) in
+    (match FileBin.reader_open d0 with
+     | (_, Prelude.Ok ((s, _), _)) -> raw_summary s (n_of_decimal fo) (n_of_decimal recs) (parse_proto proto)
+     | (_, Prelude.Err k) -> "open:e" ^ err_name k
+     | (_, Prelude.Panic) -> "open:P")
+  | _ -> failwith "bad RAWRD case"
+
+(* OPEN <fault> <devhex> : header fields and XML bytes *)
+let run_open (toks : string list) : string =
+  match toks with
+  | [fault; devhex] ->
+    let d0 = Device.dev_init (bytes_of_hex devhex) (fault_of fault) in
+    (match FileBin.reader_open d0 with
+     | (d, Prelude.Ok ((_, h), xml)) ->
+       Printf.sprintf "ok phys=%s xoff=%s xlen=%s xml=%s ops=%d" (decimal_of_n h.FileBin.h_phys_length)
+         (decimal_of_n h.FileBin.h_xml_offset) (decimal_of_n h.FileBin.h_xml_length)
+         (fnv_hex (fnv_bytes fnv_init xml)) (int_of_n d.Device.d_ops)
+     | (d, Prelude.Err k) -> Printf.sprintf "e%s ops=%d" (err_name k) (int_of_n d.Device.d_ops)
+     | (_, Prelude.Panic) -> "P")
+  | _ -> failwith "bad OPEN case"
+
+(* BLOBRD <fault> <devhex> <offset> <length> *)
+let run_blobrd (toks : string list) : string =
+  match toks with
+  | [fault; devhex; off; ln] ->
+    let d0 = Device.dev_init (bytes_of_hex devhex) (fault_of fault) in
+    (match FileBin.reader_open d0 with
+     | (_, Prelude.Ok ((s, _), _)) ->
+       let (_, r) = FileBin.blob_read (n_of_decimal off) (n_of_decimal ln) s in
+       (match r with
+        | Prelude.Ok data -> Printf.sprintf "ok n=%d h=%s" (Stdlib.List.length data) (fnv_hex (fnv_bytes fnv_init data))
+        | Prelude.Err k -> "e" ^ err_name k
+        | Prelude.Panic -> "P")
+     | (_, Prelude.Err k) -> "open:e" ^ err_name k
+     | (_, Prelude.Panic) -> "open:P")
+  | _ -> failwith "bad BLOBRD case"
+
+(* VCRC <fault> <devhex> / RAWXML <fault> <devhex> *)
+let run_vcrc (toks : string list) : string =
+  match toks with
+  | [fault; devhex] ->
+    (match FileBin.validate_crc (Device.dev_init (bytes_of_hex devhex) (fault_of fault)) with
+     | (_, Prelude.Ok ps) -> "ok " ^ decimal_of_n ps
+     | (_, Prelude.Err k) -> "e" ^ err_name k
+     | (_, Prelude.Panic) -> "P")
+  | _ -> failwith "bad VCRC case"
+
+let run_rawxml (toks : string list) : string =
+  match toks with
+  | [fault; devhex] ->
+    (match FileBin.raw_xml (Device.dev_init (bytes_of_hex devhex) (fault_of fault)) with
+     | (_, Prelude.Ok xml) -> Printf.sprintf "ok n=%d h=%s" (Stdlib.List.length xml) (fnv_hex (fnv_bytes fnv_init xml))
+     | (_, Prelude.Err k) -> "e" ^ err_name k
+     | (_, Prelude.Panic) -> "P")
+  | _ -> failwith "bad RAWXML case"
+
 let run_crc (toks : string list) : string =
   match toks with
   | [hex] -> decimal_of_n (Crc.crc32c (bytes_of_hex hex))
@@ -278,6 +454,12 @@ let () =
           | "PR" :: r -> run_pr r
           | "CRC" :: r -> run_crc r
           | "PWS" :: r -> run_pws r
+          | "FW" :: r -> run_fw r
+          | "RAWRD" :: r -> run_rawrd r
+          | "OPEN" :: r -> run_open r
+          | "BLOBRD" :: r -> run_blobrd r
+          | "VCRC" :: r -> run_vcrc r
+          | "RAWXML" :: r -> run_rawxml r
           | "BITS" :: r -> run_bits r
           | "BITSPEC" :: r -> run_bitspec r
           | "BW" :: r -> run_bw r
